@@ -393,7 +393,10 @@ func c17run(c *Ctx) {
 	for _, o := range []string{"silent1", "silent2", "partial", "router-nil", "router-again"} {
 		cases = append(cases, a{"127.0.0.1:PORT", "valid+" + o}, a{":PORT", "valid+" + o})
 	}
-	for _, t := range []string{"127.0.0.1:99999", "127.0.0.1:abc", "127.0.0.1:-1", "192.0.2.77:PORT"} {
+	for _, t := range []string{"127.0.0.1:99999", "127.0.0.1:abc", "127.0.0.1:-1", "192.0.2.77:PORT",
+		// addresses the validation lets through and the net package cannot resolve: IPv6 literals without
+		// brackets, service names that do not exist
+		"fd00::2:PORT", "2001:db8:3333:4444:5555:6666:7777:8888:PORT", ":no-such-service", "localhost:ldap/tcp", "127.0.0.1:ldapz"} {
 		cases = append(cases, a{t, "unlistenable"})
 	}
 	for _, t := range []string{"127.0.0.1:PORT", ":PORT", "localhost:PORT"} {
